@@ -61,6 +61,11 @@ def one_hot_patterns(system):
                 e["tau"] = float(t) if t else -mag
         return e
     pats = [mk(0, 0, 0), mk(2, 0, 0)]
+    if len(system) > 1 and system[1] == "theta" and not (len(system) > 2 and system[2] == "tau"):
+        # (with tau storage the time component needs |p| = rho / sin(theta) = 0 / 0: the zero vector is not representable there)
+        z0 = mk(0, 0, 0)
+        z0["theta"] = 0.0          # the zero vector as to_rhophitheta() / to_xytheta() store it
+        pats.insert(1, z0)
     if len(system) > 1 and system[1] == "z":
         pats.append(mk(0, 5, 0))
     if len(system) > 2 and system[2] == "t":
@@ -202,6 +207,11 @@ def shard(args):
         objs = [AR.obj_of(system, mom, e) for e in pats]
         with np.errstate(all="ignore"):
             nz = [any(float(getattr(o, c)) != 0.0 for c in names) for o in objs]
+        # the zero vector is zero by construction, whatever way it is stored (rho = 0 with theta = 0 or 1, eta = 0): an absolute expectation,
+        # independent of the accessors under test
+        for i_, e_ in enumerate(pats):
+            if all(e_.get(k_, 0.0) == 0.0 for k_ in ("x", "y", "rho", "z", "t", "tau")):
+                nz[i_] = False
         rows = [pats[:2], pats[2:], [pats[0]], []]
         exp = [sum(nz[:2]), sum(nz[2:]), int(nz[0]), 0]
         try:
